@@ -43,9 +43,15 @@ def basic_case(draw, names=None, depth=2):
         t1, t2 = T(x1), T(x2)
         t2[..., 0, :] = t1[..., 0, :]
         x2 = t2.tolist()
+    # data far from the origin (timestamps, map coordinates): only for trees of stationary kernels, whose value depends on x1 - x2
+    offset = 0.0
+    if all(l["k"] in kern.STATIONARY for l in kern.leaves(r)):
+        offset = draw(st.sampled_from([0.0, 0.0, 0.0, 1e3, 1e5, 1e6]))
     return {
+        "offset": offset,
         "d": d, "kb": kb, "xb": xb, "kernel": r, "x1": x1, "x2": x2, "mode": mode,
         "lazy": draw(st.booleans()), "trace": draw(st.integers(0, 4)) == 0, "req_grad": draw(st.integers(0, 4)) == 0,
+        "no_grad": draw(st.booleans()),  # predictions evaluate kernels under torch.no_grad(): other branches of the distance helpers
         "diag": draw(st.integers(0, 3)) == 0 and same,
     }
 
@@ -53,13 +59,14 @@ def basic_case(draw, names=None, depth=2):
 def run_basic(case, ctx: Ctx):
     r = case["kernel"]
     ctx.cls = f"{kern.describe(r)}|kb{case['kb']}|xb{case['xb']}"
-    x1 = T(case["x1"])
+    off = case.get("offset", 0.0)
+    x1 = T(case["x1"]) + off
     if case["mode"] == "same_obj":
         x2 = x1
     elif case["mode"] == "equal_vals":
         x2 = x1.clone()
     else:
-        x2 = T(case["x2"])
+        x2 = T(case["x2"]) + off
     want = kern.ref_kernel(r, x1, x2)
     if case["req_grad"]:
         x1 = x1.clone().requires_grad_(True)
@@ -67,8 +74,11 @@ def run_basic(case, ctx: Ctx):
             x2 = x1
     with ctx.observing("build"):
         k = kern.build_kernel(r)
+    import contextlib
+
+    nograd = torch.no_grad() if (case.get("no_grad") and not case["req_grad"]) else contextlib.nullcontext()
     with ctx.observing("evaluate"):
-        with S.lazily_evaluate_kernels(case["lazy"]), S.trace_mode(case["trace"]):
+        with S.lazily_evaluate_kernels(case["lazy"]), S.trace_mode(case["trace"]), nograd:
             if case["mode"] == "same_obj":
                 out = k(x1)
             else:
@@ -80,11 +90,16 @@ def run_basic(case, ctx: Ctx):
     # near-coincident (not identical) rows of kernels with a kink at r=0 lose sqrt(eps) in the quadratic-expansion distance
     smooth = kern.smooth_at_zero(r)
     atol = 1e-11 if smooth else 1e-6
+    if off:
+        # the inputs themselves carry an absolute rounding of eps * offset: a scaled distance r is known to ~ 2 eps offset / l,
+        # r^2 to ~ 4 r eps offset / l  (l >= 0.3, r <= ~30): 1e-6 covers offset <= 1e6; a distance computation that does not
+        # centre the data loses eps * offset^2 / l^2 ~ 1e-3 instead
+        atol = max(atol, 1e-6 if smooth else 1e-4)
     ctx.close("value", got, want, rtol=1e-9, atol=atol)
     if gotd is not None:
         ctx.close("diag", gotd, want.diagonal(dim1=-2, dim2=-1), rtol=1e-9, atol=atol)
     ctx.label(*{f"leaf={l['k']}" for l in kern.leaves(r)}, f"kb={case['kb']}", f"xb={case['xb']}", f"mode={case['mode']}",
-              f"composite={kern.is_composite(r)}")
+              f"composite={kern.is_composite(r)}", f"offset={off:g}", f"no_grad={bool(case.get('no_grad'))}")
     n1, n2 = x1.shape[-2], x2.shape[-2]
     ctx.set_nontrivial(n1 != n2 or case["d"] >= 2 or bool(case["kb"]) or any(l.get("ard") for l in kern.leaves(r))
                        or case["mode"] != "call2")
